@@ -67,6 +67,9 @@ class Tr:
             if isinstance(e, ast.Call) and isinstance(e.func, ast.Name) and e.func.id == "float" and len(e.args) == 1 and not e.keywords \
                     and not self.is_inf(e):
                 return "(.un .frac %s)" % self.expr(e.args[0])     # float(x): numbers are exact in the model
+        if getattr(self, "dense_units", False) and isinstance(e, ast.Call) and isinstance(e.func, ast.Name) and e.func.id == "float" \
+                and len(e.args) == 1 and not e.keywords and not self.is_inf(e):
+            return "(.un .frac %s)" % self.expr(e.args[0])         # float(x) of an exact number: numbers are exact in the model
         if isinstance(e, ast.Call) and isinstance(e.func, ast.Name) and len(e.args) == 1 and not e.keywords:
             if e.func.id == "Fraction":
                 return "(.un .frac %s)" % self.expr(e.args[0])
@@ -1512,6 +1515,25 @@ def generate_units():
         lines.append("/-- `DiscreteTimeInterpreter.%s` -/" % name)
         lines.append("def %s : Method :=\n  %s" % (name, t))
         lines.append("")
+    # dense time: `DenseTimeInterpreter.time_unit_transformer` (bounds -> numbers in the default unit)
+    try:
+        dtree = ast.parse(open(os.path.join(REPO, "rtamt/semantics/dense_time_interpreter.py")).read())
+        dcls = [n for n in dtree.body if isinstance(n, ast.ClassDef) and n.name == "DenseTimeInterpreter"][0]
+        dtr = Tr(dcls)
+        dtr.interp = True
+        dtr.dense_units = True
+        m = dtr.methods.get("time_unit_transformer")
+        if m is None:
+            t = "{ params := [], body := .unsupported \"missing method\", ret := none }"
+        else:
+            t = dtr.method("time_unit_transformer")
+            t = t.replace("params := [%s]" % ", ".join(q(x.arg) for x in m.args.args[1:]),
+                          "params := [%s]" % ", ".join(q(x) for x in ["$begin", "$end", "$bunit", "$eunit", "$unit"]), 1)
+        lines.append("/-- `DenseTimeInterpreter.time_unit_transformer` (`float(x)` of an exact number is the number: rounding is not modelled) -/")
+        lines.append("def dense_time_unit_transformer : Method :=\n  %s" % t)
+        lines.append("")
+    except (OSError, IndexError) as e:
+        lines.append("-- dense_time_interpreter.py not found: %s" % e)
     lines.append("end Rtamt.Py.Gen.Units")
     return "\n".join(lines) + "\n"
 
